@@ -244,7 +244,7 @@ def check_C05(run: Run):
                 for board in itertools.combinations(rest, nb):
                     items.append(best_item(t, hole, board))
         run.count('exhaustive_subdeck:' + t, 1)
-    n_rand = 700 if run.tier == 'quick' else 12000
+    n_rand = 2500 if run.tier == 'quick' else 40000
     for t in GAME_TYPES:
         for _ in range(n_rand if t != 'Kuhn' else 30):
             nh, nb = shapes(t, rng)
